@@ -74,6 +74,46 @@ func (b *Box) OrderDep() int {
 	return b.n + b.Bump()
 }
 
+// ---- with TransSpec.InOut ------------------------------------------------------------------------
+
+// the parameter is written AND returned: the result would share its array with the caller's slice
+func EscWrite(s []int) []int {
+	s[0] = 1
+	return s
+}
+
+func both(a, b []int) { a[0] = b[0] + 1 }
+
+// the same array in two argument positions of a call that writes one of them
+func TwiceSame(s []int) { both(s, s) }
+
+func lessInt(a, b int) bool { return a < b }
+
+func pick(a, b int, less func(int, int) bool) int {
+	if less(a, b) {
+		return a
+	}
+	return b
+}
+
+// a function of the package as a pure function value: it is not known to be total
+func UsePure(a, b int) int { return pick(a, b, lessInt) }
+
+// a function-typed result
+func Getter(n int) func(int, int) bool { return nil }
+
+// a nil function
+func NilFunc(a, b int) int {
+	var f func(int, int) bool
+	if f(a, b) {
+		return a
+	}
+	return b
+}
+
+// writing a part of a slice through an in-out position
+func both3(s []int) { both(s[1:], s[:1]) }
+
 // ---- [ext:T20] --------------------------------------------------------------------------------------------
 
 var hidden int
@@ -102,3 +142,16 @@ func setErr() { ErrMutable = nil }
 
 // a sentinel error that some function assigns is not a constant
 func MutableSentinel() error { return ErrMutable }
+
+// [BitsCode] a struct literal that keeps a named slice outside a return: the literal and the variable would share
+type Pack struct{ xs []int }
+
+func LitAlias(s []int) int {
+	t := make([]int, 3)
+	p := Pack{xs: t}
+	t[0] = 5
+	return p.xs[0] + len(s)
+}
+
+// [BitsCode] int(u) of an arbitrary 64-bit unsigned value may overflow
+func BigConv(u uint64) int { return int(u + 1) }
